@@ -32,47 +32,25 @@ def _registries(ctx: Ctx) -> Dict[str, ClassInfo]:
 
 
 def rule_validation_first(ctx: Ctx, out: Collector) -> None:
-    """EX-1: DAG.run validates every needed pool before the run manager is constructed."""
-    g = ctx.graph(DAG_RUN)
-    regs = _registries(ctx)
-    mgr = ctx.manager_class()
-    ready = {'thread': set(), 'process': set()}
-    for ev in g.events('call'):
-        for t in ev.info.get('targets', ()):
-            if t[0] == 'func' and t[1].name == 'is_ready' and ev.info.get('inlined'):
-                for kind, ci in regs.items():
-                    if t[1].cls is ci:
-                        ready[kind].add(ev.id)
-    ctor = [ev for ev in g.events('call') if any(t[0] == 'class' and t[1] is mgr for t in ev.info.get('targets', ()))]
-    if not ctor:
-        raise AnalysisError('DAG.run does not construct the run manager (EX-1 anchor vanished)')
+    """EX-1: DAG.run validates every needed pool before the run manager is constructed (DAG.run interpreted for the four
+    combinations of the pool flags)."""
     unit = ctx.p.func(DAG_RUN)
-    s = Search(ctx.p, g, EXC_LABELS)
-
-    def estep(prev, lab, e, state, facts):
-        t_ok, p_ok = state
-        if prev is not None and prev.kind == 'branch' and lab == 'F' and prev.info.get('test') is not None:
-            tx = unparse(prev.info['test'])
-            if tx.endswith('is_thread_pool_needed'):
-                t_ok = 1
-            if tx.endswith('is_process_pool_needed'):
-                p_ok = 1
-        if e.id in ready['thread']:
-            t_ok = 1
-        if e.id in ready['process']:
-            p_ok = 1
-        return (t_ok, p_ok)
-
-    res = s.run([(g.entry, (0, 0), frozenset())], None, lambda e, st, f: e.id == ctor[0].id and st != (1, 1), edge_step=estep)
+    table = {}
+    problems = []
+    for t_needed, p_needed in itertools.product((False, True), repeat=2):
+        flags = {'is_thread_pool_needed': t_needed, 'is_process_pool_needed': p_needed}
+        got = _validated_before_manager(ctx, flags)
+        need = {k for k, on in (('thread', t_needed), ('process', p_needed)) if on}
+        table[f'thread needed={t_needed}, process needed={p_needed}'] = sorted(got)
+        if not need <= got:
+            problems.append(f'{"/".join(sorted(need - got))} pool needed but not validated when the manager is constructed')
     cons = f'{unit.module.name}::{unit.qualname}::pool validation precedes the run manager'
-    if res is None:
-        out.ok('EX-1', cons, ctor[0].where(), 'every path to the manager passes is_ready() of each needed pool (or the not-needed branch)')
+    if not problems:
+        out.ok('EX-1', cons, ctx.p.loc(unit, unit.node), 'every needed pool has been asked is_ready() when the manager is constructed', table=table)
     else:
-        st = res[1]
-        missing = [k for k, v in zip(('thread', 'process'), st) if not v]
-        out.bad('EX-1', cons, ctor[0].where(), f'the run manager can be constructed and run before the {"/".join(missing)} pool was validated: '
-                                               f'a missing pool surfaces in the middle of the run (partial execution) instead of failing fast',
-                path_text(g, res[0]))
+        out.bad('EX-1', cons, ctx.p.loc(unit, unit.node), 'the run manager can be constructed and run before a needed pool was validated ('
+                + '; '.join(sorted(set(problems))) + '): a missing pool surfaces in the middle of the run (partial execution) instead of '
+                'failing fast', table=table)
 
 
 def _node_obj(ctx: Ctx, tags: Tuple[str, ...]) -> AObj:
@@ -216,10 +194,17 @@ def _declared(ctx: Ctx, is_coro: bool, tags: Tuple[str, ...], weakest: bool = Tr
                 kwargs = {k: (kwargs[k] and kw[k]) if weakest else (kwargs[k] or kw[k]) for k in kw}
     if kwargs is None:
         raise AnalysisError('build() could not be interpreted (EX-3 anchor vanished)')
-    # which registries DAG.run validates for these flags
+    return _validated_before_manager(ctx, kwargs), f'flags {kwargs}'
+
+
+def _validated_before_manager(ctx: Ctx, kwargs: Dict[str, bool]) -> Set[str]:
+    """Which registries DAG.run has asked is_ready() of when it constructs the run manager, for a DAG with these pool flags.
+    DAG.run itself is interpreted (whatever helpers it is split into) up to the construction of the manager."""
+    p = ctx.p
     dag_run = p.func(DAG_RUN)
     regs = _registries(ctx)
     validated: Set[str] = set()
+    reached = []
 
     def run2(oracle: Oracle):
         done = []
@@ -229,8 +214,6 @@ def _declared(ctx: Ctx, is_coro: bool, tags: Tuple[str, ...], weakest: bool = Tr
             stubs[m.fid] = (lambda kind: (lambda interp, a, k, s_: done.append(kind)))(kind)
         interp = Interp(p, oracle, stubs=stubs)
         dag = AObj(dag_run.cls, dict(kwargs))
-        # DAG.run itself is interpreted up to the construction of the run manager (stubbed): whatever validation it
-        # performs - inline, in one helper or several - is what counts
         mgr_cls = ctx.manager_class()
         orig_construct = interp.construct
 
@@ -254,13 +237,17 @@ def _declared(ctx: Ctx, is_coro: bool, tags: Tuple[str, ...], weakest: bool = Tr
         try:
             interp.call_unit(dag_run, [TOP], {}, dag)
         except _Stop:
-            pass
+            reached.append(True)
         return tuple(done)
 
+    first = True
     for o in enumerate_outcomes(run2):
         if o[0] == 'value':
-            validated |= set(o[1])
-    return validated, f'flags {kwargs}'
+            validated = set(o[1]) if first else (validated & set(o[1]))
+            first = False
+    if not reached:
+        raise AnalysisError('DAG.run does not construct the run manager (EX-1 anchor vanished)')
+    return validated
 
 
 def _call_with_globals2(interp: Interp, unit: FuncUnit, self_obj, globs):
@@ -347,38 +334,61 @@ def rule_decision_table(ctx: Ctx, out: Collector) -> None:
                 [f'{k}: {v}' for k, v in table.items()], table=table)
 
 
+def _ready_facts(ctx: Ctx, ci: ClassInfo):
+    """What the readiness test of a registry reads, through whatever in-class helpers it is split into:
+    (is_ready unit, data fields of self, flags read from a field (self.<field>.<flag>), the field holding the pool)."""
+    p = ctx.p
+    m = p.lookup_method(ci, 'is_ready')
+    if m is None:
+        raise AnalysisError(f'{ci.name}.is_ready not found (EX-4 anchor vanished)')
+    units, todo = [], [m]
+    while todo:
+        u = todo.pop()
+        if u in units:
+            continue
+        units.append(u)
+        for n in ast.walk(u.node):
+            if isinstance(n, ast.Call) and isinstance(n.func, ast.Attribute) and isinstance(n.func.value, ast.Name) \
+                    and n.func.value.id in ('self', 'cls'):
+                h = p.lookup_method(ci, n.func.attr)
+                if h is not None and h not in units:
+                    todo.append(h)
+    fields, flags, bases = set(), set(), set()
+    for u in units:
+        for n in ast.walk(u.node):
+            if isinstance(n, ast.Attribute) and isinstance(n.value, ast.Name) and n.value.id == 'self' \
+                    and p.lookup_method(ci, n.attr) is None:
+                fields.add(n.attr)
+            if isinstance(n, ast.Attribute) and isinstance(n.value, ast.Attribute) and isinstance(n.value.value, ast.Name) \
+                    and n.value.value.id == 'self':
+                flags.add(n.attr)
+                bases.add(n.value.attr)
+    pool_field = None
+    gpe0 = p.lookup_method(ci, 'get_pool_executor')
+    if gpe0 is not None:
+        for n in ast.walk(gpe0.node):
+            if isinstance(n, ast.Return) and isinstance(n.value, ast.Attribute) and isinstance(n.value.value, ast.Name) \
+                    and n.value.value.id == 'self':
+                pool_field = n.value.attr
+    if pool_field is None and len(bases) == 1:
+        pool_field = next(iter(bases))
+    if pool_field is None or pool_field not in fields:
+        raise AnalysisError(f'{m.fid}: the field holding the pool cannot be identified (EX-4 anchor vanished)')
+    return m, sorted(fields), sorted(flags), pool_field
+
+
 def rule_is_ready(ctx: Ctx, out: Collector) -> None:
     """EX-4: is_ready raises whenever the pool is missing or shut down; get_pool_executor checks first."""
     p = ctx.p
     regs = _registries(ctx)
     for kind, ci in regs.items():
-        m = ci.methods['is_ready']
-        # attributes the method reads from self
-        attrs = sorted({n.attr for n in ast.walk(m.node) if isinstance(n, ast.Attribute) and isinstance(n.value, ast.Name)
-                        and n.value.id == 'self'})
-        sub = sorted({n.attr for n in ast.walk(m.node) if isinstance(n, ast.Attribute) and isinstance(n.value, ast.Attribute)
-                      and isinstance(n.value.value, ast.Name) and n.value.value.id == 'self'})
+        m, attrs, sub, pool_field = _ready_facts(ctx, ci)
         problems = []
         table = {}
         pool_states = [('missing', None)]
         for flag in sub or ['_shutdown']:
-            pool_states.append(('alive', AObj(('ext', 'Pool'), {flag: False}, tag='pool-alive')))
-            pool_states.append(('shut down', AObj(('ext', 'Pool'), {flag: True}, tag='pool-down')))
-        # the field holding the pool: what get_pool_executor hands out (else the field whose flags is_ready reads)
-        pool_field = None
-        gpe0 = p.lookup_method(ci, 'get_pool_executor')
-        if gpe0 is not None:
-            for n in ast.walk(gpe0.node):
-                if isinstance(n, ast.Return) and isinstance(n.value, ast.Attribute) and isinstance(n.value.value, ast.Name) \
-                        and n.value.value.id == 'self':
-                    pool_field = n.value.attr
-        if pool_field is None:
-            bases = {n.value.attr for n in ast.walk(m.node) if isinstance(n, ast.Attribute) and isinstance(n.value, ast.Attribute)
-                     and isinstance(n.value.value, ast.Name) and n.value.value.id == 'self'}
-            if len(bases) == 1:
-                pool_field = bases.pop()
-        if pool_field is None or pool_field not in attrs:
-            raise AnalysisError(f'{m.fid}: the field holding the pool cannot be identified (EX-4 anchor vanished)')
+            pool_states.append(('alive', AObj(('ext', 'Pool'), {f: False for f in (sub or ['_shutdown'])}, tag='pool-alive')))
+            pool_states.append((f'shut down ({flag})', AObj(('ext', 'Pool'), {f: f == flag for f in (sub or ['_shutdown'])}, tag='pool-down')))
         others = [a for a in attrs if a != pool_field]
         other_states = list(itertools.product(*[[('missing', None), ('present', AObj(('ext', 'X'), {}))] for _ in others])) or [()]
         for pname, pool in pool_states:
@@ -407,14 +417,21 @@ def rule_is_ready(ctx: Ctx, out: Collector) -> None:
                     + '; '.join(problems[:3]) + ' - a run with a missing / shut down pool is not stopped before any node runs')
         gpe = p.lookup_method(ci, 'get_pool_executor')
         if gpe is not None:
-            body = [s for s in gpe.node.body if not (isinstance(s, ast.Expr) and isinstance(s.value, ast.Constant))]
-            first_is_ready = bool(body) and isinstance(body[0], ast.Expr) and isinstance(body[0].value, ast.Call) \
-                and unparse(body[0].value.func) == 'self.is_ready'
             cons = f'{gpe.module.name}::{gpe.qualname}::checks readiness before handing out the pool ({kind})'
-            if first_is_ready:
-                out.ok('EX-4', cons, p.loc(gpe, gpe.node), 'self.is_ready() is the first statement')
+
+            def run_gpe(oracle: Oracle, state=None):
+                obj = AObj(ci, {a: AObj(('ext', 'X'), {}) for a in attrs})
+                obj.attrs[pool_field] = state
+                return Interp(p, oracle).call_unit(gpe, [], {}, obj)
+            handed = []
+            for label, state in (('missing', None), ('shut down', AObj(('ext', 'Pool'), {f: True for f in (sub or ['_shutdown'])}, tag='pool-down'))):
+                outs = enumerate_outcomes(lambda oracle, state=state: run_gpe(oracle, state))
+                if any(o[0] == 'value' for o in outs):
+                    handed.append(label)
+            if not handed:
+                out.ok('EX-4', cons, p.loc(gpe, gpe.node), 'raises for a missing and for a shut down pool')
             else:
-                out.bad('EX-4', cons, p.loc(gpe, gpe.node), 'get_pool_executor hands out the pool without checking that it is ready')
+                out.bad('EX-4', cons, p.loc(gpe, gpe.node), f'get_pool_executor hands out a {" / ".join(handed)} pool without checking that it is ready')
 
 
 def rule_dispatch_transparent(ctx: Ctx, out: Collector) -> None:
